@@ -109,7 +109,7 @@ def scenarios(tier, batch_seed):
                 if dp["n_files"] == 2:
                     dp["size_factors"] = [1.0, rng.choice([1.0, 0.7])]
                     dp["n_spectra"] = max(dp["n_spectra"], rng.randint(200, 250))  # calibration is per (file, fold)
-                if (d + round_no + ("pm1", "10", "bool").index(enc)) % 2 == 1:
+                if (d + round_no + ("pm1", "10", "bool").index(enc)) % 4 in (1, 2):
                     dp["row_order"] = "targets_first"  # with all-equal scores (untrained folds) file order decides tie handling
                 if (d + round_no + ("pm1", "10", "bool").index(enc)) % 3 == 0:
                     # the planted best feature is integer-typed with magnitudes above 2**24 (fixed-point with an offset)
@@ -246,7 +246,10 @@ def run_scenario(scn, workdir):
         probes["fold_aligned_feature"] = 1
     # ---- pass 2: faulty estimators
     estimators.REGISTRY.clear()
-    est = estimators.RecordingLDA(tag_idx=ti, mode=list(modes), fold_tags=held, noise_seed=scn["seed"] % 1000)
+    # how much worse than the best feature an "overfit" learner generalises varies: only slightly worse is the
+    # interesting region of the comparison between the learned scores and the best feature
+    est = estimators.RecordingLDA(tag_idx=ti, mode=list(modes), fold_tags=held, noise_seed=scn["seed"] % 1000,
+                                  overfit_noise=(0.5, 0.8, 1.1, 1.5)[(scn["seed"] // 1000) % 4])
     import mokapot
 
     model = mokapot.Model(est, scaler="as-is", train_fdr=cfg["train_fdr"], max_iter=cfg["max_iter"],
